@@ -379,14 +379,70 @@ def r08_4(ctx, repo):
                     U(n.slice) for n in subs) or 'no filter')
         fn = repo.method(cls, count_m)
         construct = '%s.%s' % (cls, count_m)
-        txt = ' '.join(U(s) for s in fn.body)
-        ok = ('np.sum(self._fixed_params_mask)' in txt
-              and 'self._n_parameters - n_fixed' in txt) or (
-              'np.sum(~self._fixed_params_mask)' in txt)
-        if ok:
-            ctx.ok(rule, repo.loc(fn, cls, count_m), construct,
-                   'count = total - popcount(mask)')
+        where = repo.loc(fn, cls, count_m)
+        # the count, evaluated symbolically on both mask states, equals
+        # TOTAL - popcount(mask) (resp. TOTAL when no parameter is fixed)
+        import sympy as sp
+        from ..term import Lifter, Opaque, Unsupported, is_zero
+        TOTAL, POPC = sp.Symbol('TOTAL', positive=True), \
+            sp.Symbol('POPC', positive=True)
+
+        class CountLifter(Lifter):
+            def ev(self, n, env, fn_, depth, owner):
+                if U(n) == MASK:
+                    return Opaque('mask')
+                if isinstance(n, ast.UnaryOp) and isinstance(
+                        n.op, ast.Invert):
+                    v = self.ev(n.operand, env, fn_, depth, owner)
+                    if isinstance(v, Opaque) and v.what == 'mask':
+                        return Opaque('notmask')
+                return super().ev(n, env, fn_, depth, owner)
+
+            def _call(self, n, env, fn_, depth, owner):
+                f = U(n.func)
+                if f in ('np.sum', 'np.count_nonzero', 'sum') and n.args:
+                    v = self.ev(n.args[0], env, fn_, depth, owner)
+                    if isinstance(v, Opaque) and v.what == 'mask':
+                        return POPC
+                    if isinstance(v, Opaque) and v.what == 'notmask':
+                        return TOTAL - POPC
+                if f == 'int' and n.args:
+                    return self.ev(n.args[0], env, fn_, depth, owner)
+                if isinstance(n.func, ast.Attribute) and n.func.attr == \
+                        'sum' and not n.args:
+                    v = self.ev(n.func.value, env, fn_, depth, owner)
+                    if isinstance(v, Opaque) and v.what == 'mask':
+                        return POPC
+                    if isinstance(v, Opaque) and v.what == 'notmask':
+                        return TOTAL - POPC
+                return super()._call(n, env, fn_, depth, owner)
+        verdicts = []
+        for mask_none, want in ((False, TOTAL - POPC), (True, TOTAL)):
+            lf = CountLifter(repo, cls, flags={MASK + ' is None': mask_none})
+            try:
+                val = lf.run(fn, {'self._n_parameters': TOTAL})
+            except Unsupported as e:
+                verdicts.append(('error', str(e)))
+                continue
+            if not isinstance(val, sp.Expr):
+                verdicts.append(('error', 'count is not a number: %r' % (
+                    val,)))
+                continue
+            z = is_zero(val - want)
+            verdicts.append(('ok' if z is True else 'bad', (val, want,
+                                                            mask_none)))
+        if all(v[0] == 'ok' for v in verdicts):
+            ctx.ok(rule, where, construct,
+                   'count = total - popcount(mask), total when nothing is '
+                   'fixed')
+        elif any(v[0] == 'bad' for v in verdicts):
+            val, want, mn = [v[1] for v in verdicts if v[0] == 'bad'][0]
+            ctx.violation(
+                rule, where, construct, 'count',
+                'with the mask %s the reported count evaluates to `%s`; the '
+                'names are filtered with ~mask, i.e. there are `%s` of them'
+                % ('unset' if mn else 'set', val, want))
         else:
-            ctx.error(rule, '%s: count expression outside the recognised '
-                      'idioms' % construct)
+            ctx.error(rule, '%s: count expression not evaluated (%s)' % (
+                construct, [v[1] for v in verdicts if v[0] == 'error'][0]))
     ctx.floor(rule, 6)
